@@ -250,6 +250,8 @@ def run(tier, seed):
     if tier == "quick":
         rng2 = random.Random(seed + 1)
         hists = [h for h in hists if rng2.random() < 0.35]
+    else:
+        hists = core.cap(hists, 25000, random.Random(seed + 1))
     jobs = concretise(hists, windows(tier), 1)
     tid = len(jobs) + 1
     jobs += limit_histories(tid)
